@@ -599,12 +599,15 @@ def run(res, tier):
                 "chosen cache-file write of the workload (30 % with only a prefix of that write reaching the file, cut at a "
                 "DbCellHeader field boundary or inside the payload), restarted, every URL fetched with only-if-cached; plus "
                 "about one scenario in six on a ufs or aufs cache_dir (killed at a random write to swap.state or an object "
-                "file), judged by the oracle only; non-trivial = the scenario ran to the post-restart queries")
+                "file), judged by the oracle only; thorough = 240 generated scenarios with at most 4 crash points per workload "
+                "(not every write boundary: each scenario costs a squid -z, two starts and a kill, about 4 s); "
+                "non-trivial = the scenario ran to the post-restart queries")
+    os.environ.setdefault("VERIF_STALL", "180")      # one model case takes 0.3-3 s; never mistake load for a hang
     try:
         std.run_lab(res, PID, tier, area="diskcrash", gens=["diskcrash"], gen_scenarios=gen_scenarios,
                     run_impl=run_impl, to_case=to_case, oracle=oracle,
                     corr_name="DiskcrashModel (writes, rebuild, hit) vs the running squid",
-                    n_quick=18, n_thorough=600, seed_salt=16, model_blind=model_blind,
+                    n_quick=18, n_thorough=240, seed_salt=16, model_blind=model_blind,
                     kind_fn=kind_fn, nontrivial_fn=lambda s, o: " | " in o, retries=1)
     finally:
         _state.clear()
